@@ -122,7 +122,14 @@ def ensure_serializable(
             coder.loads(coder.dumps(arg))
             safe_exc_args.append(arg)
         except Exception:
-            safe_exc_args.append(safe_repr(arg))
+            text = safe_repr(arg)
+            try:
+                coder.loads(coder.dumps(text))
+            except Exception:
+                # The text form itself can't be encoded
+                # (e.g. it has a lone surrogate in it).
+                text = text.encode("utf-8", "backslashreplace").decode("utf-8")
+            safe_exc_args.append(text)
 
     return tuple(safe_exc_args)
 
